@@ -74,6 +74,22 @@ check('C05', E2,
       'virtual time (no real waiting); EINTR modelled as an environment answer; process table simulated; PopenSpawn reader thread eager',
       'DESIGN.md 3 C05')
 
+check('C07', E2,
+      'complete enumeration of byte streams x every set of <= 3 cut points x encodings x error policies x maxread x transports, each piece delivered at its own virtual instant; oracle = codecs.decode of the whole stream',
+      'Every splitting (up to 3 cuts at every byte offset) of every stream in the pool is delivered through every real transport class and must reach the caller and logfile_read as the whole-stream decoding, with the right string type.',
+      'stream pool finite (1-4 byte UTF-8 sequences, UTF-16 with BOM and surrogate pair, latin-1, invalid bytes under replace/ignore); sync path (async decode path covered in C14)',
+      'DESIGN.md 3 C07')
+check('C08', E2,
+      'complete enumeration of send-family call sequences (length <= 3) x payload pool x mode x transport with a byte-exact raw-mode peer; every control-character name',
+      'Every sequence is executed on the real transport; the peer must receive exactly the incremental encoding of the arguments in call order (+ one line separator per sendline, one byte per control call); send returns the bytes written.',
+      'raw-mode pty slave / pipe / socketpair peer owned by the harness; payloads above the kernel buffer drained by a free-running thread (total compared only)',
+      'DESIGN.md 3 C08')
+check('C11', E2,
+      'complete enumeration of read/send operation sequences (length <= 4) x the 7 log subsets x mode x transport with recording log objects (every write/flush, type, global order)',
+      'Every sequence is executed; logfile_read must equal the text delivered (incremental decoding of what was read, characters cut by read boundaries), logfile_send the coerced arguments incl. control characters, logfile their merge in operation order, every write flushed, string type = API type.',
+      'each read operation consumes exactly the chunk delivered for it (unique token per chunk); interact() logging is judged in C15',
+      'DESIGN.md 3 C11')
+
 NOT_BUILT = {}
 
 
